@@ -41,7 +41,8 @@ pub fn stream_records(cx: &mut Ctx, out: &mut Vec<Rec>, id: u16, role: u16, nois
                 _ => cx.ch.one_of(&[1usize, 7, 8, 9, 255, 256, 16384, 32767, 32768, 32769, 65535]).min(rem),
             };
             if k == 65535 { cx.probe("record_65535"); }
-            let pad = gen_padding(cx);
+            let mut pad = gen_padding(cx);
+            if k >= 65281 && cx.ch.chance(1, 2) { pad = 255; }
             g.push(Rec::new(s, id, content[p..p + k].to_vec(), pad));
             p += k;
         }
@@ -111,6 +112,8 @@ pub struct SDriver<'a, 'c> {
     /// C03: a full buffer without progress is a legal outcome (no stuck detection in the stream parser).
     pub allow_stuck: bool,
     pub stuck: bool,
+    /// Output is only ever drained partially (never completely) while reading: the consumed prefix keeps growing.
+    pub partial_drain_only: bool,
 }
 
 impl<'a, 'c> SDriver<'a, 'c> {
@@ -122,7 +125,7 @@ impl<'a, 'c> SDriver<'a, 'c> {
             taken: vec![0; streams.len()],
             out_drained: Vec::new(),
             all_replies: model::concat_replies(&m.replies),
-            style, failed: None, saw_end: false, c18: false, allow_stuck: false, stuck: false,
+            style, failed: None, saw_end: false, c18: false, allow_stuck: false, stuck: false, partial_drain_only: false,
         }
     }
 
@@ -410,7 +413,7 @@ impl<'a, 'c> SDriver<'a, 'c> {
             }
             _ => {
                 if ob > 0 {
-                    let j = if cx.ch.chance(1, 2) { ob } else { cx.ch.range(0, ob) };
+                    let j = if self.partial_drain_only { cx.ch.range(1, (ob / 3).max(1)).min(ob.saturating_sub(1)).max(if ob > 1 { 1 } else { 0 }) } else if cx.ch.chance(1, 2) { ob } else { cx.ch.range(0, ob) };
                     self.drain_output(cx, j);
                     self.check_buffers(oracle)?;
                 }
@@ -434,6 +437,12 @@ impl<'a, 'c> SDriver<'a, 'c> {
                 // rejected selections at arbitrary moments, including mid-record: must change nothing
                 if !self.p.is_record_boundary() { cx.probe("rejected_selection_mid_record"); }
                 try_illegal(cx, self)?;
+            }
+            if self.c18 && cx.ch.chance(1, 10) {
+                // re-selecting the current stream is a no-op, also in the middle of a record
+                if !self.p.is_record_boundary() { cx.probe("reselect_current_mid_record"); }
+                let a = self.active;
+                self.select(cx, a)?;
             }
             let (_, end, progress) = self.random_action(cx, oracle)?;
             if end || self.saw_end {
@@ -557,6 +566,7 @@ fn cx_dest(cx: &mut Ctx) -> usize {
 }
 
 pub const C02_PROBES: &[&str] = &[
+    "reply_flood",
     "buffer_over_64k",
     "conversion_probe_ok", "conversion_probe_interrupted",
     "record_65535", "payload_moved_with_parsed_nonempty", "held_back_header_seen", "dest_len_zero", "compress_with_stream_data",
@@ -566,7 +576,7 @@ pub const C02_PROBES: &[&str] = &[
 pub const C18H_PROBES: &[&str] = &[
     "buffer_over_64k",
     "conversion_probe_ok", "conversion_probe_interrupted",
-    "noncompliant_order", "early_advance", "rejected_selection", "rejected_selection_mid_record", "held_back_header_seen",
+    "noncompliant_order", "early_advance", "rejected_selection", "rejected_selection_mid_record", "reselect_current_mid_record", "held_back_header_seen",
     "stopped_mid_stream", "into_input_checked", "dest_len_zero", "compress_with_stream_data",
 ];
 pub const C05_PROBES: &[&str] = &[
@@ -660,6 +670,16 @@ pub fn stream_scenario(cx: &mut Ctx, c18: bool) -> VResult {
     let noise = cx.ch.pick(5);
     let compliant = !c18 || cx.ch.chance(1, 4);
     let rc = gen_request(cx, noise, 60, 24, compliant, false, Phase::Stream);
+    let mut rc = rc;
+    let flood = !c18 && cx.ch.chance(1, 40);
+    if flood {
+        // hundreds of unknown-type records in the stream phase: several KiB of replies pending at once
+        let at = rc.recs.iter().position(|r| r.rtype == PARAMS && r.id == rc.id && r.content.is_empty()).expect("params end") + 1;
+        let n = cx.ch.range(300, 700);
+        let t = cx.ch.one_of(&[0u8, 12, 200, 255]);
+        for _ in 0..n { rc.recs.insert(at, Rec::new(t, 0, Vec::new(), 0)); }
+        cx.probe("reply_flood");
+    }
     let wire = encode_all(&rc.recs);
     let need = longest_pair(&rc.recs) + 13;
     let mut bufsize = pick_small_bufsize(cx, need);
@@ -686,6 +706,7 @@ pub fn stream_scenario(cx: &mut Ctx, c18: bool) -> VResult {
     vcheck!(sp.request.request_id.get() == info.id, "c05_handoff_request", "wrong request after hand-off");
     let mut d = SDriver::new(sp, &wire, pos, wire.len(), &sm, info.role, style);
     d.c18 = c18;
+    d.partial_drain_only = flood;
     vcheck!(d.p.active_stream() == d.streams.first().map(|&s| rt(s)), "c18_initial", "initial active stream {:?}", d.p.active_stream());
     cx.nontrivial = true;
     let n = d.streams.len();
